@@ -272,7 +272,7 @@ pub fn run(s: &Session) {
         s.pick(200_000, 5_000_000),
         || {
             (
-                gen::spec(),
+                gen::spec_early(),
                 tweaks(),
                 prop::collection::vec(shape_op(), 0..4),
                 prop::collection::vec((any::<u16>(), shape_op()), 0..2),
